@@ -1,10 +1,15 @@
 #!/bin/bash
-# usage: tools_seed.sh <patch.diff> <check-id> [more ids]  -- applies a seeded change to /repo, runs the checks (quick, no evidence), reverts
+# usage: tools_seed.sh <patch.diff> <check-id> [more ids]
+# Applies a seeded change to a scratch worktree of /repo's HEAD (never to /repo itself, so background runs are not
+# disturbed), runs the checks against it (quick, no evidence) and removes the change again.
 patch=$1; shift
-cd /repo || exit 1
-git apply --check "$patch" || { echo "patch does not apply"; exit 3; }
-git apply "$patch"
+M=/tmp/mutrepo
+head=$(git -C /repo rev-parse HEAD)
+if [ ! -d $M ]; then git -C /repo worktree add -q --detach $M $head || exit 3; fi
+git -C $M checkout -q --detach $head && git -C $M checkout -q -- . && git -C $M clean -fdq
+git -C $M apply --check "$patch" || { echo "patch does not apply"; exit 3; }
+git -C $M apply "$patch"
 for id in "$@"; do
-  (cd /verif && ./check $id --no-evidence ${TIER:+--tier $TIER} 2>&1 | grep -E "sig=|^$id |HARNESS" | head -8)
+  (cd /verif && VERIF_REPO=$M ./check $id --no-evidence ${TIER:+--tier $TIER} 2>&1 | grep -E "sig=|^$id |HARNESS" | head -8)
 done
-cd /repo && git checkout -q -- . && git status --short | head -3
+git -C $M checkout -q -- . && git -C $M clean -fdq
